@@ -9,7 +9,7 @@ HEADLINE = ["c03_steps_checked", "c03_slots_matched", "c03_persistent_slots", "c
 
 def plan(tier, seed, scale):
     # flat profiles cannot reach the sub-time mechanism of KF-subtime-data-path at all
-    return {"n_cases": sizes(tier, scale, 3200, 80000), "variants": 4,
+    return {"n_cases": sizes(tier, scale, 3200, 80000), "variants": 4, "rt_every": 7,
             "profiles": ["data", "data_flat", "core", "flat", "par", "par_flat", "events", "events_flat", "deep", "big"],
             "remote_cases": int((32 if tier == "quick" else 1600) * scale),
             "dfs_cases": int((96 if tier == "quick" else 1600) * scale), "dfs_cap": 300 if tier == "quick" else 20000,
